@@ -46,6 +46,17 @@ func c09Case(rt *rapid.T, rec *vt.Rec) {
 	client := nHosts
 	var hist, kinds []string
 	classes := map[string]bool{}
+	// a host may spell its node id in upper case or with a 0x prefix (accepted by request verification, kept as sent)
+	for i := 0; i < nHosts; i++ {
+		switch sp := rapid.SampledFrom([]string{"plain", "plain", "upper", "0x"}).Draw(rt, "idSpelling"); sp {
+		case "upper":
+			s.agents[i].id.nodeID = strings.ToUpper(s.agents[i].id.nodeID)
+			classes["id-spelling:upper"] = true
+		case "0x":
+			s.agents[i].id.nodeID = "0x" + s.agents[i].id.nodeID
+			classes["id-spelling:0x"] = true
+		}
+	}
 	logf := func(f string, a ...interface{}) {
 		hist = append(hist, fmt.Sprintf("[t+%s] ", time.Since(bubbleEpoch()))+fmt.Sprintf(f, a...))
 	}
